@@ -312,4 +312,237 @@ theorem lineCommentLoop_count_eq : ∀ (fuel : Nat) (st : St) (n : Nat), Inv src
         simp only [hcr, if_false, hz]; omega
     · simp only [slice_self]; simp
 
+
+/-! ### `//` comments with carriage returns -/
+
+theorem stripCRAux_false_eq : ∀ (l acc : List UInt8), stripCRAux false l acc = acc.reverse ++ stripCRAll l := by
+  intro l
+  induction l with
+  | nil => intro acc; simp [stripCRAux, stripCRAll]
+  | cons x rest ih =>
+    intro acc
+    simp only [stripCRAux, Bool.false_and, Bool.false_eq_true, if_false]
+    by_cases hx : x = 0x0D
+    · subst hx
+      simp only [ne_eq, not_true_eq_false, if_false, ih]
+      simp [stripCRAll]
+    · simp only [ne_eq, hx, not_false_eq_true, if_true, ih]
+      simp [stripCRAll, hx]
+
+theorem stripCR_false_eq (l : List UInt8) : stripCR l false = stripCRAll l := by
+  unfold stripCR; rw [stripCRAux_false_eq]; simp
+
+theorem stripCRAll_dropLast (l : List UInt8) (h : l.getLast? = some 0x0D) : stripCRAll l = stripCRAll l.dropLast := by
+  have : l = l.dropLast ++ [0x0D] := by
+    cases hl : l with
+    | nil => simp [hl] at h
+    | cons a t =>
+      rw [← hl]
+      have hne : l ≠ [] := by simp [hl]
+      have h2 := List.dropLast_concat_getLast hne
+      rw [List.getLast?_eq_some_getLast hne] at h
+      simp only [Option.some.injEq] at h
+      rw [h] at h2
+      exact h2.symm
+  conv => lhs; rw [this]
+  simp [stripCRAll]
+
+theorem count_dropLast (l : List UInt8) (h : l.getLast? = some 0x0D) : l.count 0x0D = l.dropLast.count 0x0D + 1 := by
+  have : l = l.dropLast ++ [0x0D] := by
+    cases hl : l with
+    | nil => simp [hl] at h
+    | cons a t =>
+      rw [← hl]
+      have hne : l ≠ [] := by simp [hl]
+      have h2 := List.dropLast_concat_getLast hne
+      rw [List.getLast?_eq_some_getLast hne] at h
+      simp only [Option.some.injEq] at h
+      rw [h] at h2
+      exact h2.symm
+  conv => lhs; rw [this]
+  simp
+
+theorem prefix_of_dropLast (p l : List UInt8) (h : p.isPrefixOf (l.dropLast.drop 2) = true) :
+    p.isPrefixOf (l.drop 2) = true := by
+  rw [List.isPrefixOf_iff_prefix] at h ⊢
+  have h1 : l.dropLast.drop 2 <+: l.drop 2 := by
+    rw [List.dropLast_eq_take, List.drop_take]
+    exact List.take_prefix _ _
+  exact h.trans h1
+
+/-- xgo `scanComment` on a `//` comment: all CRs are removed, as the TPL scanner does -/
+theorem commentXG_eq_tpl_line (F : Nat) (st : St) (hi : Inv src st) (hf : src.size - st.off < F) (h1 : 1 ≤ st.off)
+    (hc : st.ch = 0x2F) (hb0 : byteAt src (st.off - 1) = 0x2F)
+    (hpre : linePrefix.isPrefixOf ((slice src (st.off - 1) (commentLoops .xgo src F st).st.off).drop 2) = false) :
+    (scanCommentXG .xgo src F st).st = (scanCommentTpl src F st).st ∧
+      (scanCommentXG .xgo src F st).lit = (scanCommentTpl src F st).lit := by
+  obtain ⟨ha, _, _⟩ := commentLoops_ok F st hi hf
+  have hlt : st.ch < 0x80 := by omega
+  have hne := lt_ne_eof hlt
+  have e1 := next_off_ascii hi hlt
+  have hb1 := (hi.ascii hlt).1
+  have hf' : src.size - (next src st).off < F := by omega
+  have hsz : st.off < src.size := by have := hi.adv hne; have := hi.rd_le; omega
+  -- the loop and its exact CR count
+  have hcl : commentLoops .xgo src F st =
+      ⟨(lineCommentLoop src F (next src st) 0).1, (lineCommentLoop src F (next src st) 0).2, 0, true⟩ := by
+    unfold commentLoops; simp [hc]
+  have hcnt := lineCommentLoop_count_eq (src := src) F (next src st) 0 (next_inv hi) hf'
+  rw [scanCommentTpl_eq F st h1 (Or.inl hc)]
+  unfold scanCommentXG
+  have h0 : ¬ st.off = 0 := by omega
+  simp only [h0, if_false]
+  rw [hcl] at ha hpre ⊢
+  simp only [] at ha hpre ⊢
+  generalize hE : (lineCommentLoop src F (next src st) 0).1 = rst at ha hpre hcnt ⊢
+  generalize hN : (lineCommentLoop src F (next src st) 0).2 = numCR at hcnt ⊢
+  have hle : st.off - 1 ≤ rst.off := by have := ha.off_le; omega
+  have hrs := ha.inv.off_le_size
+  rw [sliceP_eq rst hle hrs]
+  simp only []
+  -- the literal: two slashes, then the scanned text
+  have hoffn : (next src st).off ≤ rst.off := by
+    have := (lineCommentLoop_adv (src := src) F (next src st) 0 (next_inv hi) hf').off_le
+    rw [hE] at this; exact this
+  have hsplit : slice src (st.off - 1) rst.off = [0x2F, 0x2F] ++ slice src (next src st).off rst.off := by
+    rw [← slice_append (src := src) (a := st.off - 1) (b := st.off) (by omega) (by omega),
+      ← slice_append (src := src) (a := st.off) (b := (next src st).off) (by omega) hoffn]
+    have e0 : st.off - 1 + 1 = st.off := by omega
+    have s0 : slice src (st.off - 1) st.off = [0x2F] := by
+      have := slice_one_byte (src := src) (i := st.off - 1) (c := 0x2F) (by omega) hb0
+      rw [e0] at this; rw [this]; rfl
+    have s1 : slice src st.off (next src st).off = [0x2F] := by
+      rw [e1, slice_one_byte hsz (hb1.trans hc)]; rfl
+    rw [s0, s1]; rfl
+  have hlen2 : 2 ≤ (slice src (st.off - 1) rst.off).length := by rw [hsplit]; simp
+  have hsec : (slice src (st.off - 1) rst.off)[1]? = some (0x2F : UInt8) := by rw [hsplit]; rfl
+  have hcount : (slice src (st.off - 1) rst.off).count 0x0D = numCR := by
+    rw [hsplit, List.count_append]
+    have : List.count (0x0D : UInt8) [0x2F, 0x2F] = 0 := by decide
+    simp [this, hcnt]
+  have hcl2 : (slice src (st.off - 1) rst.off).count 0x0D + 2 ≤ (slice src (st.off - 1) rst.off).length := by
+    rw [hsplit, List.count_append, List.length_append]
+    have : List.count (0x0D : UInt8) [0x2F, 0x2F] = 0 := by decide
+    have h2 : (slice src (next src st).off rst.off).count 0x0D ≤ (slice src (next src st).off rst.off).length :=
+      List.count_le_length
+    simp only [this, List.length_cons, List.length_nil]
+    omega
+  generalize slice src (st.off - 1) rst.off = lit0 at hpre hlen2 hsec hcount hcl2 ⊢
+  -- strip1, directive, stripCR
+  unfold commentStrip1
+  by_cases hpos : 0 < numCR
+  · by_cases hlast : lit0.getLast? = some (0x0D : UInt8)
+    · have hcond : 0 < numCR ∧ 2 ≤ lit0.length ∧ lit0[1]? = some (0x2F : UInt8) ∧ lit0.getLast? = some (0x0D : UInt8) :=
+        ⟨hpos, hlen2, hsec, hlast⟩
+      simp only [hcond, and_self, if_true]
+      have hpre' : linePrefix.isPrefixOf (lit0.dropLast.drop 2) = false := by
+        cases hp : linePrefix.isPrefixOf (lit0.dropLast.drop 2) with
+        | false => rfl
+        | true => rw [prefix_of_dropLast _ _ hp] at hpre; cases hpre
+      rw [commentDirective_noPrefix _ _ _ _ hpre']
+      have hsec' : lit0.dropLast[1]? = some (0x2F : UInt8) ∨ lit0.dropLast.length < 2 := by
+        by_cases hl : 1 < lit0.length - 1
+        · left; rw [List.getElem?_dropLast]; simp [hl, hsec]
+        · right; simp only [List.length_dropLast]; omega
+      unfold commentStripCR
+      by_cases hpos2 : 0 < numCR - 1
+      · simp only [hpos2, if_true]
+        have hl3 : 1 < lit0.dropLast.length := by
+          -- at least "//" and two CRs
+          have := count_dropLast lit0 hlast
+          have hc2 : lit0.dropLast.count 0x0D ≤ lit0.dropLast.length := List.count_le_length
+          have : 2 ≤ lit0.length := hlen2
+          simp only [List.length_dropLast]
+          omega
+        rw [List.getElem?_eq_getElem hl3]
+        simp only []
+        refine ⟨by first | rfl | trivial, ?_⟩
+        have hx : lit0.dropLast[1] = (0x2F : UInt8) := by
+          rcases hsec' with h | h
+          · rw [List.getElem?_eq_getElem hl3] at h; exact Option.some.inj h
+          · omega
+        simp only [hx]
+        have : decide ((0x2F : UInt8) = 0x2A) = false := by decide
+        rw [this, stripCR_false_eq, ← stripCRAll_dropLast lit0 hlast]
+      · simp only [hpos2, if_false]
+        refine ⟨by first | rfl | trivial, ?_⟩
+        -- exactly one CR, the last byte: nothing else to strip
+        have hone : lit0.dropLast.count 0x0D = 0 := by
+          have := count_dropLast lit0 hlast; omega
+        rw [stripCRAll_dropLast lit0 hlast]
+        exact (stripCRAll_id _ (fun b hb heq => by
+          subst heq; exact absurd hb (List.count_eq_zero.mp hone))).symm
+    · have hcond : ¬ (0 < numCR ∧ 2 ≤ lit0.length ∧ lit0[1]? = some (0x2F : UInt8) ∧ lit0.getLast? = some (0x0D : UInt8)) :=
+        fun h => hlast h.2.2.2
+      simp only [hcond, if_false]
+      rw [commentDirective_noPrefix _ _ _ _ hpre]
+      unfold commentStripCR
+      simp only [hpos, if_true]
+      rw [List.getElem?_eq_getElem (show 1 < lit0.length by omega)]
+      simp only []
+      refine ⟨by first | rfl | trivial, ?_⟩
+      have hx : lit0[1] = (0x2F : UInt8) := by
+        rw [List.getElem?_eq_getElem (show 1 < lit0.length by omega)] at hsec; exact Option.some.inj hsec
+      simp only [hx]
+      have : decide ((0x2F : UInt8) = 0x2A) = false := by decide
+      rw [this, stripCR_false_eq]
+  · have hcond : ¬ (0 < numCR ∧ 2 ≤ lit0.length ∧ lit0[1]? = some (0x2F : UInt8) ∧ lit0.getLast? = some (0x0D : UInt8)) :=
+      fun h => hpos h.1
+    simp only [hcond, if_false]
+    rw [commentDirective_noPrefix _ _ _ _ hpre]
+    unfold commentStripCR
+    simp only [hpos, if_false]
+    exact ⟨by first | rfl | trivial, by first | rfl | trivial⟩
+
+
+/-- `//…` and `/*…*/`: the two scanners agree -/
+theorem commentXG_eq_tpl (F : Nat) (st : St) (hi : Inv src st) (hf : src.size - st.off < F) (h1 : 1 ≤ st.off)
+    (hc : st.ch = 0x2F ∨ st.ch = 0x2A) (hb0 : byteAt src (st.off - 1) = 0x2F)
+    (hok : commentSpanOK src (st.off - 1) (commentLoops .xgo src F st).st.off = true) :
+    (scanCommentXG .xgo src F st).st = (scanCommentTpl src F st).st ∧
+      (scanCommentXG .xgo src F st).lit = (scanCommentTpl src F st).lit := by
+  obtain ⟨hcr, hpre, _⟩ := commentSpanOK_spec hok
+  rcases hc with hc | hc
+  · exact commentXG_eq_tpl_line F st hi hf h1 hc hb0 hpre
+  · obtain ⟨ha, _, _⟩ := commentLoops_ok F st hi hf
+    have e : st.off - 1 + 1 = st.off := by omega
+    have hb1 := (hi.ascii (show st.ch < 0x80 by omega)).1
+    have hcr' := hcr (Or.inr (by rw [e, hb1]; exact hc))
+    have hbytes := noCR_bytes (src := src) ha.inv.off_le_size hcr'
+    have hnum := commentLoops_noCR F st hi hf (fun k h1 h2 => hbytes k (by omega) h2)
+    have hx := scanCommentXG_plain F st hi hf h1 hnum hpre
+    rw [scanCommentTpl_eq F st h1 (Or.inr hc), hnum]
+    have hle : st.off - 1 ≤ (commentLoops .xgo src F st).st.off := by have := ha.off_le; omega
+    rw [sliceP_eq _ hle ha.inv.off_le_size]
+    exact ⟨hx.1, by simpa using hx.2⟩
+
+/-- `#…`: the two scanners agree -/
+theorem commentXG_eq_sharp (F : Nat) (st : St) (hi : Inv src st) (hf : src.size - st.off < F) (h1 : 1 ≤ st.off)
+    (hb : byteAt src (st.off - 1) = 0x23)
+    (hok : commentSpanOK src (st.off - 1) (commentLoops .xgo src F st).st.off = true) :
+    (scanCommentXG .xgo src F st).st = (scanSharpCommentTpl src F st).st ∧
+      (scanCommentXG .xgo src F st).lit = (scanSharpCommentTpl src F st).lit := by
+  obtain ⟨hcr, hpre, hq⟩ := commentSpanOK_spec hok
+  obtain ⟨ha, _, _⟩ := commentLoops_ok F st hi hf
+  have hbytes := noCR_bytes (src := src) ha.inv.off_le_size (hcr (Or.inl hb))
+  have e : st.off - 1 + 1 = st.off := by omega
+  have hns : st.ch ≠ 0x2F := by
+    intro h
+    have := (hi.ascii (by omega)).1
+    apply hq
+    rw [e]
+    exact ⟨hb, Or.inl (this.trans h)⟩
+  have hnstar : st.ch ≠ 0x2A := by
+    intro h
+    have := (hi.ascii (by omega)).1
+    apply hq
+    rw [e]
+    exact ⟨hb, Or.inr (this.trans h)⟩
+  have hnum := commentLoops_noCR F st hi hf (fun k h1 h2 => hbytes k (by omega) h2)
+  have hx := scanCommentXG_plain F st hi hf h1 hnum hpre
+  rw [scanSharpCommentTpl_eq F st h1 hns hnstar]
+  have hle : st.off - 1 ≤ (commentLoops .xgo src F st).st.off := by have := ha.off_le; omega
+  rw [sliceP_eq _ hle ha.inv.off_le_size]
+  exact ⟨hx.1, hx.2⟩
+
 end GopModel.Scan
